@@ -341,6 +341,18 @@ class VQueue:
     def _pop(self):
         return self._items.pop(0)
 
+    @property
+    def queue(self):
+        """the waiting items, as `queue.Queue.queue` exposes them (a snapshot; the shim owns the real list)"""
+        import collections
+        return collections.deque(self._items)
+
+    @property
+    def mutex(self):
+        if not hasattr(self, "_mutex"):
+            self._mutex = VRLock()
+        return self._mutex
+
     def qsize(self):
         return len(self._items)
 
@@ -653,6 +665,7 @@ class VSerial:
         self.device = device
         self.nwrites = 0
         self.closed_at = None
+        self.write_delay = None    # callable(n) -> seconds the n-th write blocks inside the driver (a slow / congested link)
         if device is not None:
             device.attach(self)
 
@@ -708,6 +721,10 @@ class VSerial:
         S.emit("write", data=d.hex())
         if self.device is not None:
             self.device.on_write(d)
+        if self.write_delay is not None:
+            dl = self.write_delay(self.nwrites)
+            if dl and dl > 0:
+                S.block(lambda: False, S.now + us(dl), "serial.write(blocking)")
         return len(d)
 
     def close(self):
